@@ -95,6 +95,7 @@ def run(chk: Check):
                 label="design: second geometry")
     na, nr = (60, 24) if thorough else (9, 6)
     acases = c01.generate(chk, 64 if not thorough else 400, chk.seed + 9, label="AKAI images for C09", nsect=20, maxparts=2, maxvols=1, maxfiles=2)
+    acases = [c for c in acases if c["expected"]] or acases          # images that export something
     step = max(1, len(acases) // na)
     for i, case in enumerate(acases[::step][:na]):
         image = aw.build_image(case, chk.seed + i)
@@ -102,7 +103,7 @@ def run(chk: Check):
         if i % 3 == 1:
             trail = 1000 + i
             image += bytes((7 * j) & 0xFF for j in range(trail))        # not a multiple of 2048
-        elif i % 3 == 2:
+        elif i % 3 == 2 and case["needs"]:
             # trimmed right behind the last byte any exported file depends on: live data in the last partial 2048-byte sector
             trail = -max(n["need"] for n in case["needs"])
             image = image[:-trail]
